@@ -24,7 +24,7 @@ from scipy import sparse
 from vlib.cases import Case, Sub, evaluate as _evaluate
 from vlib.core import enc_rat, enc_bool, VERIF
 
-RULE = ('edge lists: exhaustive multisets of <= 2 edges over 3 identifiers (int and str) x all 32 flag combinations, '
+RULE = ('edge lists: exhaustive lists of <= 2 edges over 3 identifiers (int and str) x all 32 flag combinations (thorough: all lists of 3 edges x 4 sampled flag combinations), '
         'sampled lists of 3..7 edges over int / gapped int / negative int / letter / mixed / numeric-string identifiers with '
         'duplicate, reciprocal, self-loop, zero, negative, dyadic and boolean weights x flags x shape x matrix_only, '
         'list and ndarray inputs, adjacency lists and dicts; CSV files written with each delimiter (tab , ; space and an '
@@ -633,6 +633,18 @@ def gen_edge_cases(ctx, out, earlies):
         lists = [[p] for p in pairs] + [[p, q] for p in pairs for q in pairs]
         if quick:
             lists = [lists[i] for i in sorted(rng.sample(range(len(lists)), 90))]
+        elif name == 'int':
+            # thorough: every list of three edges as well, each under four random flag combinations
+            triples = [[p, q, r] for p in pairs for q in pairs for r in pairs]
+            combos = list(all_flag_combos())
+            for es in triples:
+                for fl in rng.sample(combos, 4):
+                    wm = rng.choice(['none', 'small', 'any'])
+                    edges = [(a, b, None if wm == 'none' else rng.choice(WEIGHTS if wm == 'any' else WEIGHTS[:3])) for a, b in es]
+                    c, e = edge_case(edges, dict(fl))
+                    out.append(c)
+                    earlies.append((c, e))
+            ctx.count('exhaustive-3-edge-lists:int', len(triples) * 4)
         for es in lists:
             for fl in all_flag_combos():
                 wm = rng.choice(['none', 'small', 'any'])
